@@ -162,21 +162,31 @@ func Open(t testing.TB, id string) *Shard {
 	return s
 }
 
+// ProgressSlots is the number of most recent cases kept in the progress area. More than one
+// is kept because a crash can surface late: the lexer goroutine of an earlier input may
+// still be running (and die) while the shard has moved on to the next inputs.
+const ProgressSlots = 8
+
 // Progress publishes the case in flight to the driver through shared memory, so that a
 // crash or stall of this process can be attributed to it. Cost: a few memory stores.
+// Layout: [0:8] number of calls so far; then ProgressSlots slots of equal size, each
+// [0:8] index, [8:12] payload length (0xffffffff while being written), [12:] payload.
 func (s *Shard) Progress(idx uint64, payload []byte) {
 	if s.progress == nil {
 		return
 	}
-	binary.LittleEndian.PutUint64(s.progress[0:8], idx)
+	slotSize := (len(s.progress) - 16) / ProgressSlots
+	seq := binary.LittleEndian.Uint64(s.progress[0:8])
+	slot := s.progress[16+int(seq%ProgressSlots)*slotSize:][:slotSize]
 	n := len(payload)
-	if n > len(s.progress)-16 {
-		n = len(s.progress) - 16
+	if n > slotSize-12 {
+		n = slotSize - 12
 	}
-	// length is written last and cleared first so that a torn write is detectable
-	binary.LittleEndian.PutUint32(s.progress[8:12], 0xffffffff)
-	copy(s.progress[16:], payload[:n])
-	binary.LittleEndian.PutUint32(s.progress[8:12], uint32(n))
+	binary.LittleEndian.PutUint32(slot[8:12], 0xffffffff)
+	binary.LittleEndian.PutUint64(slot[0:8], idx)
+	copy(slot[12:], payload[:n])
+	binary.LittleEndian.PutUint32(slot[8:12], uint32(n))
+	binary.LittleEndian.PutUint64(s.progress[0:8], seq+1)
 }
 
 // Eval counts one executed case.
